@@ -282,11 +282,28 @@ func (k Keeper) StartRequestContext(
 		return types.ErrRequestContextNotPaused
 	}
 
+	// a new batch is needed if the context is in neither the expired nor the new request batch queue
+	needsNewBatch := !k.HasRequestBatchExpiration(ctx, requestContextID) && !k.HasNewRequestBatch(ctx, requestContextID)
+
+	// do not start a batch beyond the repeated total (or a second batch of a non-repeated context)
+	if needsNewBatch {
+		remaining := requestContext.BatchCounter == 0
+		if requestContext.Repeated {
+			remaining = requestContext.RepeatedTotal < 0 || int64(requestContext.BatchCounter) < requestContext.RepeatedTotal
+		}
+
+		if !remaining {
+			return sdkerrors.Wrapf(
+				types.ErrInvalidRepeatedTotal,
+				"all batches [%d] have been issued; update the repeated total before starting", requestContext.BatchCounter,
+			)
+		}
+	}
+
 	requestContext.State = types.RUNNING
 	k.SetRequestContext(ctx, requestContextID, requestContext)
 
-	// add to the new request batch queue if existing in neither expired nor new request batch queue
-	if !k.HasRequestBatchExpiration(ctx, requestContextID) && !k.HasNewRequestBatch(ctx, requestContextID) {
+	if needsNewBatch {
 		k.AddNewRequestBatch(ctx, requestContextID, ctx.BlockHeight())
 	}
 
